@@ -46,6 +46,20 @@ let run line =
         | [Sx.A "delvrf"; name] -> vrfs := List.remove_assoc (Sx.atom name) !vrfs
         | _ -> failwith "step") steps;
       "ok " ^ String.concat " " (List.rev !out)
+  | [Sx.L [Sx.A "idx"; Sx.L ups]] ->
+      (* (idx ((k (src rt...) ...) ...)): after every table update the candidates of destination k, selected first *)
+      let st = ref Model.iinit in
+      let outs = List.map (fun u -> match Sx.list u with
+        | k :: cands ->
+            let nl = List.map (fun c -> match Sx.list c with
+              | src :: rts -> { Model.vr_rd = z k; vr_prefix = z k; vr_label = N.z_of_string "100"; vr_src = z src; vr_rts = zl rts }
+              | [] -> failwith "cand") cands in
+            st := Model.istep !st (Model.IUpd (z k, nl, false));
+            "(step " ^ String.concat " " (List.map (fun t ->
+              let l = List.sort compare (List.map (fun (k, r) -> zs k ^ ":" ^ zs r.Model.vr_src ^ ":0") (Model.paths_by_rt !st (N.z_of_string (string_of_int t)))) in
+              Printf.sprintf "(rt %d%s)" t (String.concat "" (List.map (fun x -> " " ^ x) l))) [1; 2; 3; 4]) ^ ")"
+        | [] -> failwith "upd") ups in
+      "ok " ^ String.concat " " outs
   | _ -> "err unknown-op"
 let () =
   try
